@@ -7,7 +7,7 @@ OPTS = [dict(sched="rr", nested=False, rdep_rel=False, _sticky=0.8, max_m=2, max
 
 
 def run(rep):
-    core_check(rep, "C09", [dict(o) for o in OPTS], 72, 1200, cyc_quick=160, cyc_thorough=600,
+    core_check(rep, "C09", [dict(o) for o in OPTS], 48, 1200, cyc_quick=160, cyc_thorough=600,
                nontrivial_key="impl_cycles_with_ready_not_run")
     rep.coverage["rule"] = ("designs without ready dependencies under trivial_roundrobin_cc_scheduler, sticky random input "
                             "histories (inputs keep their value with probability 0.6-0.9 so that long enabled windows occur); "
